@@ -12,6 +12,7 @@ of Spec/Scoping.v), skipped wants must not be compared, the persistent state mus
 """
 import itertools
 import json
+import warnings
 
 from harness import common, gendoc, runmodel, parsemodel
 from harness.common import Sym
@@ -359,9 +360,90 @@ def check_known_classes(ctx):
             ctx.notes.append('recorded finding %s no longer reproduces: %s' % (e['id'], outcome))
 
 
+
+# ---- which directives are block and which inline: Directive.extract's classification vs Model/DirInline.v -------------------
+INLINE_LINES = ['', '   ', '\t', '\xa0 ', '# a remark', '  # xdoctest: +SKIP', '# doctest: +ELLIPSIS', '#', 'v = 1', 'w = [1,', '      2]',
+                "s = '# xdoctest: +SKIP'", 'v = 2  # xdoctest: +IGNORE_WANT', '# split \x0c here', '# nel \x85 x', '# xdoc: -SKIP  ', '\x0c',
+                'if v:', '    pass  # a trailing remark']
+
+
+def inline_texts(ctx):
+    quick = ctx.tier == 'quick'
+    out = []
+    n = 3 if quick else 4
+    for k in range(1, n + 1):
+        for ls in itertools.product(range(len(INLINE_LINES)), repeat=k):
+            t = '\n'.join(INLINE_LINES[i] for i in ls)
+            if 'xdoc' in t or 'doctest:' in t:
+                out.append(t)
+    rng = ctx.rng('inline-texts')
+    for _ in range(3000 if quick else 40000):
+        ls = [rng.choice(INLINE_LINES) for _ in range(rng.randint(4, 9))]
+        t = rng.choice(['\n', '\n', '\r\n']).join(ls) + rng.choice(['', '\n', '\n\n'])
+        if 'xdoc' in t or 'doctest:' in t:
+            out.append(t)
+    return out
+
+
+def spec_inline(text):
+    """inline iff some line of the statement is neither empty nor a comment"""
+    return any(l.strip() and not l.strip().startswith('#') for l in text.splitlines())
+
+
+def _inline_worker(texts):
+    from xdoctest import directive
+    ans = common.model_batch([('extract_inline', t) for t in texts])
+    out = []
+    for t, m in zip(texts, ans):
+        try:
+            with warnings.catch_warnings():
+                warnings.simplefilter('ignore')
+                flags = sorted(set(bool(d.inline) for d in directive.Directive.extract(t)))
+        except Exception as e:      # noqa  (the tokenizer rejects the text: nothing is classified)
+            flags = 'raised %s' % type(e).__name__
+        out.append((flags, bool(m)))
+    return out
+
+
+def inline_classification(ctx):
+    texts = inline_texts(ctx)
+    chunks = [texts[i:i + 2000] for i in range(0, len(texts), 2000)]
+    res = [r for ch in common.pmap(_inline_worker, chunks) for r in ch]
+    nv = 0
+    seen = {'block': 0, 'inline': 0, 'no-directive-found': 0, 'raised': 0}
+    for t, (flags, m) in zip(texts, res):
+        ctx.evaluations += 1
+        want = spec_inline(t)
+        if isinstance(flags, str):
+            seen['raised'] += 1
+            continue
+        if not flags:
+            seen['no-directive-found'] += 1
+            impl_ok = True
+        else:
+            seen['inline' if flags == [True] else 'block'] += 1
+            impl_ok = flags == [want]
+        if (not impl_ok or m != want) and nv < 5:
+            nv += 1
+            ctx.violation('inline-classification', {
+                'what': 'Directive.extract classifies the directives of this statement as inline=%r, the model as %r; by the rule '
+                        '(inline iff a line that is neither empty nor a comment) it is %r' % (flags, m, want),
+                'statement_text': t, 'impl_inline_flags': flags, 'model_inline': m, 'rule_inline': want,
+                'theorem_or_correspondence': 'C04_inline_iff_code / Model.DirInline.extract_inline vs Directive.extract'}, not impl_ok)
+    for k, v in seen.items():
+        ctx.count('inline_texts_' + k, v)
+    if seen['raised'] * 10 > len(texts) or not seen['block'] or not seen['inline']:
+        raise RuntimeError('the inline-classification stratum is vacuous: %r' % seen)      # a defect of this harness: no verdict
+    ctx.add_rule('Directive.extract on every statement text of <=%d lines over %d line forms (code, comments, directive comments, empty and blank '
+                 'lines, form feeds and NEL inside comments, directive-looking strings) that holds a directive marker, plus random longer ones with '
+                 'LF/CRLF line ends and trailing empty lines: the inline flag of every directive found = Model.DirInline.extract_inline = the rule'
+                 % (3 if ctx.tier == 'quick' else 4, len(INLINE_LINES)))
+
+
 def run(ctx):
     check_known_classes(ctx)
     unit_level(ctx)
+    inline_classification(ctx)
     cases = []
     for idx, events in enumerate(gen_events(ctx)):
         shapes = SHAPES[idx % len(SHAPES):] + SHAPES[:idx % len(SHAPES)]
@@ -478,6 +560,14 @@ def replay(path):
         problem = _hist_worker([dict(default=dflt, docs=[(a, b) for a, b in d['history']])])[0]
         print('history of %d doctests, default options %r\nproblem=%r' % (len(d['history']), dflt, problem))
         if problem:
+            print('VIOLATION property=C04 replay=%s' % path)
+            return 1
+        return 0
+    if 'statement_text' in d:
+        flags, m = _inline_worker([d['statement_text']])[0]
+        want = spec_inline(d['statement_text'])
+        print('statement text %r\nimpl inline flags=%r model=%r rule=%r' % (d['statement_text'], flags, m, want))
+        if (not isinstance(flags, str) and flags and flags != [want]) or m != want:
             print('VIOLATION property=C04 replay=%s' % path)
             return 1
         return 0
